@@ -12,12 +12,12 @@ for id in "$@"; do
   echo "patch: applies" >> $out
   FEAT="--features weak,serde,internal-test-strategies"
   if cargo test --offline $FEAT > $W/suite.log 2>&1; then echo "suite with change: PASS ($(grep -c 'test result: ok' $W/suite.log) result lines ok)" >> $out; else echo "suite with change: FAIL" >> $out; grep -E "FAILED|panicked|error" $W/suite.log | head -5 >> $out; fi
-  demo=$(ls $S/demo/*.rs 2>/dev/null | head -1)
+  demo=$S/demo/demo_seeded.rs; [ -f $demo ] || demo=$(ls $S/demo/*.rs 2>/dev/null | head -1)
   if [ -n "$demo" ]; then
     cp $demo tests/demo_seeded.rs
     FLAGS=""; grep -q arc_swap_verif $demo && FLAGS="--cfg arc_swap_verif"
     run() { RUSTFLAGS="$FLAGS" timeout 900 cargo test --offline $FEAT --test demo_seeded -- --test-threads=1 > $W/demo_$1.log 2>&1; echo $?; }
-    if grep -qi miri $S/demo/README.txt 2>/dev/null; then
+    if [ -z "$NO_MIRI" ] && grep -qi miri $S/demo/README.txt 2>/dev/null; then
       run() { MIRIFLAGS="-Zmiri-permissive-provenance" timeout 1500 cargo +nightly miri test --offline --test demo_seeded > $W/demo_$1.log 2>&1; echo $?; }
       echo "demo runner: cargo +nightly miri test" >> $out
     fi
